@@ -5,7 +5,7 @@ import json, os, re
 import vlib
 from vlib import CheckError
 
-WHAT = {1: "lookup", 2: "listing", 3: "shape", 4: "root-not-nil-when-empty", 5: "pointers", 6: "crash", 7: "undecodable-op"}
+WHAT = {0: "concurrent-lookup", 1: "lookup", 2: "listing", 3: "shape", 4: "root-not-nil-when-empty", 5: "pointers", 6: "crash", 7: "undecodable-op-or-bad-concurrent-plan"}
 OPK = {1: "insert", 2: "remove", 3: "remove-by-peer"}
 
 SWEEP_HEAD = ("From WG Require Import Base.Prelude AllowedIPs.Trie AllowedIPs.Spec AllowedIPs.Check.\n"
@@ -17,7 +17,9 @@ class Prop:
     vo_check = ["theories/AllowedIPs/Check.vo"]
     vo_props = ["theories/Props/C08.vo"]
     k_names = ["observations(device.AllowedIPs Insert/Remove/RemoveByPeer/Lookup/EntriesForPeer + trie shape + parent pointers == AllowedIPs.Trie model)",
-               "sweep(model == specification on every state of the exhaustive small-alphabet enumeration; thorough tier)"]
+               "sweep(model == specification on every state of the exhaustive small-alphabet enumeration)",
+               "concurrent(Lookup racing with Insert/Remove/RemoveByPeer that are unrelated to the probed addresses returns the "
+               "specification's owner in every interleaving; RWMutex discipline exercised, not proved)"]
     rule = ("operation histories (Insert, Remove by (prefix, peer), RemoveByPeer) from one PRNG over: a dense family (all prefixes of "
             "length 0..4, all of length 28..32 / 124..128 under 3-4 stems that fork at chosen bits, chains of intermediate lengths "
             "around byte and 64-bit boundaries), random wide prefixes, both families mixed, the 14-prefix x 2-peer alphabet of the "
@@ -26,9 +28,18 @@ class Prop:
             "30-50% of the prefixes given, remove-everything endings.  Observed after (a subset of) operations: Lookup on first/last/"
             "first-1/last+1/random-inside of every prefix mentioned, EntriesForPeer of every peer, pre-order dump of both roots; "
             "pointer consistency after every operation.  non-trivial = at least 3 operations, a node without owner (fork) existed "
-            "at an observation, and at least one effective remove / remove-by-peer / reassignment; distinct by operation sequence")
+            "at an observation, and at least one effective remove / remove-by-peer / reassignment; distinct by operation sequence.  "
+            "Concurrent plans (8 quick / 40 thorough, v4 and v6 alternating): 3 stable prefixes (a nested pair /8>/24, /24>/32, /16>/30, "
+            "/1>/9 resp. /32>/64, /64>/128, /48>/65, /1>/63, and one elsewhere) never touched; 1-2 churn goroutines cycle through "
+            "insert/remove/remove-by-peer/reassign of prefixes that are not stable and not longer-than-stable around a probe "
+            "(goroutine 0 always replaces the ROOT: /0 or the shortest covering prefix, removed per prefix or per peer; others: siblings, "
+            "parents, halves, longer prefixes beside a probe, wrong-peer removes of stable prefixes); 4-6 reader goroutines look up "
+            "first/last/inside addresses of the stable prefixes for 300 ms (500 ms thorough), GOMAXPROCS >= 4; the plan's operations are "
+            "also run sequentially so that Coq confirms the expected owners are the specification's at every step")
     assumptions = ["peers are bare &device.Peer{} objects (only Peer.trieEntries is used by allowedips.go)",
-                   "single goroutine: the RWMutex of AllowedIPs is not part of this property",
+                   "sequential histories run in a single goroutine; concurrency (the RWMutex of AllowedIPs) is exercised only by the "
+                   "concurrent plans: look-ups whose answer no concurrent operation can change (theorem "
+                   "C08_lookup_stable_under_unrelated_ops is the sequential fact; linearisability itself is tested, not proved)",
                    "EntriesForPeer order (insertion order) is not specified; listings are compared as sets, duplicates are an error"]
     trusted_extra = ["Base/Ints.v: primitive Uint63 literals carry addresses/answers in generated case files only",
                      "/repo/device/verif_c08_trie.go (read-only dump of the trie and pointer-consistency walk, build tag verif)"]
@@ -60,7 +71,8 @@ class Prop:
                 os.unlink(os.path.join(self.dir, f))
         files, cases, self.shards = self._run_go(
             ["-seed", str(seed), "-n", str(n), "-shards", str(shards), "-out", self.dir, "-tier", tier,
-             "-exh", "1" if tier == "quick" else "2", "-corpus", os.path.join(vlib.ROOT, "corpus", "C08")], self.dir)
+             "-exh", "1" if tier == "quick" else "2", "-conc", str((8 if tier == "quick" else 40) * mult),
+             "-concms", "300" if tier == "quick" else "500", "-corpus", os.path.join(vlib.ROOT, "corpus", "C08")], self.dir)
         self.sweeps = {}
         if mult == 1 and seed < 1000003:
             files = files + self._sweep_files(tier)
@@ -103,6 +115,8 @@ class Prop:
                 f["detail"] = c.get("ptr_msg")
             if f["what"] == "crash":
                 f["detail"] = c.get("crash_msg")
+            if f["what"] == "concurrent-lookup":
+                f["detail"] = c.get("conc_res", {}).get("msg")
         # sweeps
         tot = {}
         for p, (alpha, length, size, first) in self.sweeps.items():
@@ -134,6 +148,15 @@ class Prop:
                                    "plus random longer ones (generator tiny4/tiny6).",
                 "states": sum(t["states_visited"] for t in tot.values()),
             }
+        conc = [c for c in cases if c.get("conc")]
+        if conc:
+            self.extra_coverage = dict(self.extra_coverage, concurrent={
+                "plans": len(conc), "plans_run": sum(1 for c in conc if c.get("conc_res", {}).get("ran")),
+                "lookups_during_churn": sum(c.get("conc_res", {}).get("lookups", 0) for c in conc),
+                "churn_operations": sum(c.get("conc_res", {}).get("churn_ops", 0) for c in conc),
+                "wrong_answers": sum(c.get("conc_res", {}).get("wrong", 0) for c in conc),
+                "gomaxprocs": max([c.get("conc_res", {}).get("gomaxprocs", 0) for c in conc] + [0]),
+                "note": "plans_run < plans means the machine has fewer than 2 CPUs and the concurrent part was skipped"})
         return res
 
     def stats(self, outputs):
@@ -154,9 +177,10 @@ class Prop:
         d = os.path.join(self.dir, "rerun")
         os.makedirs(d, exist_ok=True)
         inp = os.path.join(d, "in.json")
-        json.dump([{"ops": c["ops"], "npeers": c.get("npeers", 0), "probes": c.get("probes") or [], "init": c.get("init", False),
-                    "gen": c.get("gen", "replay")} for c in cases], open(inp, "w"))
-        files, out_cases, shards = self._run_go(["-replay", inp, "-out", d], d)
+        json.dump([dict({"ops": c["ops"], "npeers": c.get("npeers", 0), "probes": c.get("probes") or [], "init": c.get("init", False),
+                         "gen": c.get("gen", "replay")}, **({"conc": c["conc"]} if c.get("conc") else {})) for c in cases], open(inp, "w"))
+        # concurrent plans are re-run 5x longer: the interleaving is not reproducible, the plan is
+        files, out_cases, shards = self._run_go(["-replay", inp, "-out", d, "-concx", "5"], d)
         outs = vlib.run_case_files(files)
         self.last_rerun = out_cases
         res = self._bad(outs, files, shards)
@@ -166,9 +190,13 @@ class Prop:
                 f["detail"] = c.get("ptr_msg")
             if f["what"] == "crash":
                 f["detail"] = c.get("crash_msg")
+            if f["what"] == "concurrent-lookup":
+                f["detail"] = c.get("conc_res", {}).get("msg")
         return res
 
     def shrink_candidates(self, case):
+        if case.get("conc"):
+            return      # a concurrent plan is replayed as a whole (ops, probes and plan belong together)
         ops = case["ops"]
         n = len(ops)
         base = {k: case[k] for k in ("npeers", "probes", "init") if k in case}
@@ -183,6 +211,8 @@ class Prop:
 
     def signature(self, case, f):
         # what failed + the kind of the last operation before the failing observation
+        if f["pos"] % 8 == 0:
+            return "concurrent-lookup-wrong-during-churn"
         ops = case["ops"]
         item, k = 0, None
         if case.get("init"):
@@ -196,6 +226,10 @@ class Prop:
 
     def nontrivial(self, c):
         ft = c.get("feat", {})
+        if c.get("conc"):
+            cr = c.get("conc_res", {})
+            if not (cr.get("ran") and cr.get("lookups", 0) > 1000 and cr.get("churn_ops", 0) > 100):
+                return False
         if not (len(c["ops"]) >= 3 and ft.get("glue") and (ft.get("removed", 0) + ft.get("bypeer", 0) + ft.get("reassign", 0)) >= 1):
             return False
         key = json.dumps([[o["k"], o.get("f"), o.get("c"), o["p"], o.get("a")] for o in c["ops"]])
@@ -213,7 +247,11 @@ class Prop:
         return {"gen": c.get("gen"), "length": len(c["ops"]), "peers": c.get("npeers"), "ops": [show(o) for o in c["ops"][:14]],
                 "observations": len(c.get("obs", [])), "probe_addresses": len(c.get("probes", [])),
                 "last_lookups(probe,answer;0=nil)": list(zip(c.get("probes", [])[:10], last.get("look", [])[:10])),
-                "features": c.get("feat")}
+                "features": c.get("feat"),
+                **({"concurrent_plan": {"stable": [show(o) for o in c["conc"]["stable"]],
+                                        "churn_goroutines": [[show(o) for o in l] for l in c["conc"]["churn"]],
+                                        "probes(addr, owner)": [(p["a"], p["want"]) for p in c["conc"]["probes"]],
+                                        "readers": c["conc"]["readers"], "result": c.get("conc_res")}} if c.get("conc") else {})}
 
 
 def check(tier, seed):
@@ -229,7 +267,7 @@ def replay(path):
         return 1
     fs = p.run_cases([case])
     r = p.last_rerun[0]
-    print(json.dumps({"failures": fs, "ptr_msg": r.get("ptr_msg"), "crash_msg": r.get("crash_msg"),
+    print(json.dumps({"failures": fs, "ptr_msg": r.get("ptr_msg"), "crash_msg": r.get("crash_msg"), "concurrent": r.get("conc_res"),
                       "last_lookups": r["obs"][-1]["look"] if r.get("obs") else None}))
     if any(f["kind"] == 2 for f in fs):
         print("VIOLATION property=C08 replay=%s" % path)
